@@ -117,6 +117,29 @@ def steps():
 
     add("union(subquery)", _un_sub, effect="destroy", needs=(), breaks=True)
     add("union(self)", lambda x, c: _un(x, c, c.t), effect="destroy", needs=(), breaks=True)
+    def _un_tag(x, c, count):
+        names = [col.name for col in x]
+        r = c.t2
+        if "tag" in names or not all(n in r for n in names) or any(x[n].dtype() != r[n].dtype() for n in names):
+            return None
+        res = x >> pdt.mutate(tag=1) >> pdt.union(r >> pdt.select(*[r[n] for n in names]) >> pdt.mutate(tag=2))
+        if count:
+            res = res >> pdt.group_by(res.tag) >> pdt.summarize(n=pdt.count())
+        return res
+
+    add("union(tagged)", lambda x, c: _un_tag(x, c, False), effect="destroy", needs=(), breaks=True)
+    add("union(tagged)>>count by tag", lambda x, c: _un_tag(x, c, True), effect="destroy", needs=(), breaks=True)
+    add("summarize by tag", lambda x, c: x >> pdt.ungroup() >> pdt.group_by(C.tag) >> pdt.summarize(nt=pdt.count()), effect="destroy", needs=("tag",))
+
+    def _un_mixed(x, c):
+        # operands whose column types differ but have a common type (Int64 | Float64)
+        names = [col.name for col in x]
+        r = c.t2
+        if "a" not in names or not all(n in r for n in names) or any(x[n].dtype() != r[n].dtype() for n in names) or not x.a.dtype().is_int():
+            return None
+        return x >> pdt.union(r >> pdt.mutate(a=r.a.cast(pdt.Float64()) + 0.5))
+
+    add("union(int|float)", _un_mixed, effect="destroy", needs=("a",), breaks=True)
     add("alias", lambda x, c: x >> pdt.alias("al"), needs=())
     return S
 
@@ -176,6 +199,37 @@ def expr_steps():
     add("arrange(s.desc.nf,h)", lambda x, c: x >> pdt.arrange(x.s.descending().nulls_first(), x.h), effect="sort", needs=("s", "h"), uniq=True)
     add("arrange(b.nl,a.desc.nf,h.desc)", lambda x, c: x >> pdt.arrange(x.b.nulls_last(), x.a.descending().nulls_first(), x.h.descending()), effect="sort", needs=("a", "b", "h"), uniq=True)
     return S
+
+
+def hidden_ref_steps():
+    """steps for references to HIDDEN columns through an earlier table object: `stashers` create a column and remember a
+    handle to the column they hide / create; `users` refer to it later (when it is still in scope)"""
+    mk = Step
+
+    def st_overwrite(x, c):
+        c.stash = x.a  # the original `a`, hidden by the overwrite
+        return x >> pdt.mutate(a=x.a * 10)
+
+    def st_window_then_hide(x, c):
+        y = x >> pdt.mutate(w2=pdt.row_number(arrange=[x.a.nulls_last(), x.h]))
+        c.stash = y.w2
+        return y >> pdt.select(*[col for col in y if col.name != "w2"])
+
+    def st_agg_then_hide(x, c):
+        y = x >> pdt.mutate(s2=x.h.sum())
+        c.stash = y.s2
+        return y >> pdt.drop(y.s2)
+
+    def usable(x, c):
+        return getattr(c, "stash", None) is not None and c.stash._uuid in x._cache.cols
+
+    stashers = [mk("mutate(a=a*10) [keep a handle to the old a]", st_overwrite, "keep", ("a",), False, False), mk("mutate(w2=row_number) >> hide w2 [keep a handle]", st_window_then_hide, "keep", ("a", "h"), True, False),
+                mk("mutate(s2=h.sum) >> drop(s2) [keep a handle]", st_agg_then_hide, "keep", ("h",), False, False)]
+    users = [mk("mutate(z=hidden+1)", lambda x, c: x >> pdt.mutate(z=c.stash + 1) if usable(x, c) else None, "keep", (), False, False),
+             mk("filter(hidden>1)", lambda x, c: x >> pdt.filter(c.stash > 1) if usable(x, c) else None, "keep", (), False, False),
+             mk("arrange(hidden,h)", lambda x, c: x >> pdt.arrange(c.stash.nulls_last(), C.h) if usable(x, c) and "h" in x else None, "sort", (), True, False)]
+    alias_keep = mk("alias(keep_col_refs=True)", lambda x, c: x >> pdt.alias("ak", keep_col_refs=True), "keep", (), False, False)
+    return stashers, users, alias_keep
 
 
 def contexts():
@@ -327,6 +381,8 @@ def compare(pipeline, kind="mixed", carve=()):
         return ("mismatch", f"[{kind}] {lab}: polars ok, sqlite: {rs[0]} {rs[1]}")
     if rp[1] != rs[1]:
         return ("mismatch", f"[{kind}] {lab}: column names/order differ: polars {rp[1]} sqlite {rs[1]}")
+    if rs[3] != rs[1]:
+        return ("mismatch", f"[{kind}] {lab}: SQLite exports the columns {rs[1]}, the table reports {rs[3]}")
     if rp[3] != rp[1]:
         return ("mismatch", f"[{kind}] {lab}: exported names {rp[1]} differ from the table's columns {rp[3]}")
     if loose:
